@@ -249,3 +249,6 @@ m('C14', 'commander.py', "                                                self.g
 m('C05', 'statemachine.py', "    def _master_enter(self) -> None:\n        \"\"\" When entering the CONCILIATION state, automatically conciliate the conflicts. \"\"\"", "    def enter(self) -> None:\n        \"\"\" When entering the CONCILIATION state, automatically conciliate the conflicts. \"\"\"", 'C05.R3|dispatch|enter')
 m('C20', 'statscompiler.py', "    while len(lst) > depth:\n        lst.pop(0)", "    if len(lst) > depth:\n        lst.pop(0)", 'C20.R1|trunc|definition')
 m('C20', 'statscompiler.py', "        if pid == 0:\n            # process has been stopped", "        if pid < 0:\n            # process has been stopped", 'C20.R4|drop|holder')
+m('C09', 'commander.py', "        super().abort()\n        self.application_start_requests = {}\n        self.process_start_requests = {}", "        super().abort()", 'C09.R5|final-order|deferred')
+m('C09', 'statemachine.py', "        self._abort_jobs()\n        self.supvisors.stopper.stop_applications()", "        self.supvisors.stopper.stop_applications()\n        self._abort_jobs()", 'C09.R5|final-order|abort-first')
+m('C09', 'statemachine.py', "        which forces the FINAL state before everything is stopped.\n        \"\"\"\n        return None", "        which forces the FINAL state before everything is stopped.\n        \"\"\"\n        self.context.activate_checked()\n        return None", 'C09.R5|final-order|no-activation')
